@@ -62,7 +62,7 @@ class Call:
         return ln
 
     def loc(self):
-        return "%s:%s" % (self.fn.file, self.line())
+        return "%s:%s" % (self.fn.blocks[self.bb].get("file", self.fn.file), self.line())
 
     def __repr__(self):
         return "<call %s @%s bb%d>" % (self.full[:80], self.loc(), self.bb)
@@ -134,7 +134,7 @@ class Fn:
         ln = t.get("ln")
         if ln is None and self.blocks[bb]["s"]:
             ln = self.blocks[bb]["s"][-1].get("ln")
-        return "%s:%s" % (self.file, line_of(ln) if ln is not None else self.lo)
+        return "%s:%s" % (self.blocks[bb].get("file", self.file), line_of(ln) if ln is not None else self.lo)
 
     def local_name(self, l):
         if l in self.varnames:
